@@ -921,6 +921,36 @@ theorem c03_construct_arr (J : ℕ) (groups : List (List ℕ)) :
       rw [ih]
       cases List.mapM (fun j => List.mapM (fun bl => builderFor J bl j) groups) js <;> rfl
 
+/-- **Only the own row counts**: the stacked ratio of dataset `j` depends on the table of the weight
+service through row `j` alone — whatever the other datasets' weights are (in particular the
+normalisation is `Σ_k a_jk`, not the total of the table). -/
+theorem c03_own_row_only {K : Type} [Field K] [LinearOrder K] [IsStrictOrderedRing K]
+    (a a' : List (List K)) (j : ℕ) (h : a[j]? = a'[j]?) (src evt : List ℕ) (vals : List K) (n : ℕ) :
+    ratioSparse (akOfDataset a j) src evt vals n = ratioSparse (akOfDataset a' j) src evt vals n := by
+  unfold akOfDataset
+  rw [List.getD_eq_getElem?_getD, List.getD_eq_getElem?_getD, h]
+
+/-! ### The source-parameter record array of the signal generator -/
+
+/-- **Every yield parameter arrives in its own field**: a row assigned from the tuple that
+`create_src_params_recarray` builds holds, for *every* parameter `p_i` (any number of them), the value
+of the flux model in field `p_i` and `0` in field `p_i:gpidx`. -/
+theorem c03_param_row_roundtrip {K : Type} [Field K] (vals : List K) (i : ℕ) (hi : i < vals.length) :
+    readParam (paramRow vals) i = some vals[i] ∧ readGpidx (paramRow vals) i = some 0 := by
+  induction vals generalizing i with
+  | nil => simp at hi
+  | cons v rest ih =>
+    cases i with
+    | zero => simp [readParam, readGpidx, paramRow]
+    | succ i =>
+      have h := ih i (by simpa using hi)
+      simp only [readParam, readGpidx, paramRow, List.flatMap_cons] at h ⊢
+      have e1 : 2 * (i + 1) = 2 * i + 2 := by ring
+      rw [e1]
+      have e3 : 2 * i + 2 + 1 = 2 * i + 1 + 2 := by ring
+      rw [e3]
+      simpa using h
+
 /-! ### Permutations at the level of the whole pipeline -/
 
 /-- **Datasets permuted, consistently**: each weight factor travels with its row. -/
